@@ -3,7 +3,7 @@ from checks import vaacommon
 
 
 def run(ctx):
-    ctx.prove()
+    ctx.prove(families=("vaa",))
     vaacommon.run_vaa(ctx, "c06", ("ver",))
     ctx.cov["rule"] = ("guardian lists of length 0..255 (quick: 11 sizes; thorough: every size), with and without repeated addresses; a valid "
                        "ascending signer subset and 20+ single-step corruptions (swap, duplicate, re-index, index 255 / = len, outsider, other member, "
